@@ -59,12 +59,102 @@ theorem next_dispatch_at_body_end (s : RS) (h : RS.wf s) (rs : List (Nat × Nat)
   have : ¬ max (s.run rs).prefetched (s.run rs).read < (s.run rs).cl := by simpa using hkeep
   omega
 
+/-! ### handlers that drop the stream (Request.Body() on a broken body, ResetBody, SetBody) -/
+
+/-- once the stream is detached, either it was completely read when it was dropped or the drop was recorded -/
+def HSInv (s : HS) : Prop := RS.wf s.rs ∧ (s.attached = false → s.droppedUnread = false → s.rs.unread = false)
+
+theorem hs_step_inv (s : HS) (a : HAct) (h : HSInv s) : HSInv (s.step a) ∧ (s.step a).rs.cl = s.rs.cl := by
+  obtain ⟨hw, hd⟩ := h
+  have hcl : ∀ w g, (s.rs.readStep w g).1.cl = s.rs.cl := by
+    intro w g; unfold RS.readStep; split
+    · rfl
+    · split <;> rfl
+  cases a with
+  | read w g =>
+    show HSInv (s.readA w g) ∧ (s.readA w g).rs.cl = s.rs.cl
+    unfold HS.readA
+    by_cases ha : s.attached = true
+    · rw [if_pos ha]
+      refine ⟨⟨readStep_wf s.rs w g hw, ?_⟩, hcl w g⟩
+      intro hna; simp [ha] at hna
+    · rw [if_neg ha]; exact ⟨⟨hw, hd⟩, rfl⟩
+  | drop =>
+    show HSInv s.dropA ∧ s.dropA.rs.cl = s.rs.cl
+    unfold HS.dropA
+    by_cases ha : s.attached = true
+    · rw [if_pos ha]
+      refine ⟨⟨hw, ?_⟩, rfl⟩
+      intro _ hdu
+      simp only [Bool.or_eq_false_iff] at hdu
+      exact hdu.2
+    · rw [if_neg ha]; exact ⟨⟨hw, hd⟩, rfl⟩
+
+theorem hs_run_inv (as : List HAct) : ∀ s : HS, HSInv s → HSInv (s.run as) ∧ (s.run as).rs.cl = s.rs.cl := by
+  induction as with
+  | nil => intro s h; exact ⟨h, rfl⟩
+  | cons a rest ih =>
+    intro s h
+    have h1 := hs_step_inv s a h
+    have h2 := ih _ h1.1
+    exact ⟨h2.1, h2.2.trans h1.2⟩
+
+/-- C02, handlers that may also drop the stream at any point: for every sequence of reads and drops, if the server
+    keeps the connection then exactly Content-Length body bytes were taken out of it -/
+theorem next_dispatch_at_body_end_with_drops (rs : RS) (h : RS.wf rs) (as : List HAct)
+    (hkeep : (HS.run ⟨rs, true, false⟩ as).keep = true) :
+    (HS.run ⟨rs, true, false⟩ as).rs.connConsumed = rs.cl := by
+  have hi := hs_run_inv as ⟨rs, true, false⟩ ⟨h, by intro h; cases h⟩
+  generalize HS.run ⟨rs, true, false⟩ as = t at hi hkeep
+  obtain ⟨⟨hw, hd⟩, hcl⟩ := hi
+  have hun : t.rs.unread = false := by
+    unfold HS.keep at hkeep
+    cases hat : t.attached <;> cases hdu : t.droppedUnread <;> simp_all
+  unfold RS.unread at hun
+  unfold RS.connConsumed RS.wf at *
+  have : ¬ max t.rs.prefetched t.rs.read < t.rs.cl := by simpa using hun
+  simp only at hcl
+  omega
+
+theorem droppedUnread_sticky (as : List HAct) : ∀ s : HS, s.droppedUnread = true → (s.run as).droppedUnread = true := by
+  induction as with
+  | nil => intro s h; exact h
+  | cons a rest ih =>
+    intro s h
+    apply ih
+    cases a with
+    | read w g =>
+      show (s.readA w g).droppedUnread = true
+      unfold HS.readA
+      by_cases ha : s.attached = true
+      · rw [if_pos ha]; exact h
+      · rw [if_neg ha]; exact h
+    | drop =>
+      show s.dropA.droppedUnread = true
+      unfold HS.dropA
+      by_cases ha : s.attached = true
+      · rw [if_pos ha]; simp [h]
+      · rw [if_neg ha]; exact h
+
+/-- a drop of an unread stream is never forgotten: the connection is closed -/
+theorem dropped_unread_closes (rs : RS) (as : List HAct) (hun : rs.unread = true) :
+    (HS.run ⟨rs, true, false⟩ (.drop :: as)).keep = false := by
+  have h0 : (HS.step ⟨rs, true, false⟩ .drop).droppedUnread = true := by
+    show (HS.dropA ⟨rs, true, false⟩).droppedUnread = true
+    simp [HS.dropA, hun]
+  have h1 : (HS.run ⟨rs, true, false⟩ (.drop :: as)).droppedUnread = true :=
+    droppedUnread_sticky as _ h0
+  unfold HS.keep; simp [h1]
+
 /-- a rejected `Expect: 100-continue` never calls the handler and always closes the connection -/
 theorem rejected_expectation_closes (o : ExpectOutcome) (h : (expectDecision o).1 = false) : (expectDecision o).2 = true := by
   cases o <;> simp_all [expectDecision]
 
 /-! non-vacuity: a 20000-byte body with 8192 prefetched, handler reads 100 bytes: unread, so the connection is closed -/
 example : (RS.run ⟨20000, 8192, 0⟩ [(100, 100)]).unread = true := by decide
+-- SetBody on the unread 20000-byte stream, then nothing: closed;  read everything, then ResetBody: kept
+example : (HS.run ⟨⟨20000, 8192, 0⟩, true, false⟩ [.drop]).keep = false := by decide
+example : (HS.run ⟨⟨100, 100, 0⟩, true, false⟩ [.read 100 100, .drop]).keep = true := by decide
 example : (RS.run ⟨5000, 5000, 0⟩ []).unread = false ∧ RS.wf ⟨5000, 5000, 0⟩ := ⟨by decide, by unfold RS.wf; decide⟩
 
 end Fh.Props.C02
